@@ -103,6 +103,7 @@ type Sched struct {
 	// scenario hooks
 	EnvEnabled func(name string) bool
 	OnQuiesce  func() bool // called when nothing is enabled before advancing time; true = state changed
+	OnStep     func()      // called at every quiescent point before the enabled set is computed
 	Finish     func()      // oracle, evaluated at the terminal state
 	Teardown   func()      // closes nets, cancels contexts
 	stuck      chan struct{}
@@ -569,6 +570,9 @@ func (s *Sched) loop() {
 		if s.x.Steps > maxSteps {
 			s.x.Terminal = "stepcap"
 			return
+		}
+		if s.OnStep != nil {
+			s.OnStep()
 		}
 		en, wakeAt := s.enabled()
 		if len(en) == 0 {
